@@ -2,7 +2,7 @@
 From Coq Require Import List NArith.
 From Muscle Require Import Common.LE Gw.Tunnel Gw.TunnelProofs Gw.TunnelSound Gw.TunnelSender Gw.TunnelComplete Gw.TunnelTheorems Gw.TunnelMulti.
 From Muscle Require Import Gw.MiniTunnel Gw.MiniTunnelProofs Gw.MiniTunnelDrain.
-From Muscle Require Import Gw.Packetized Gw.PacketizedProofs.
+From Muscle Require Import Gw.Packetized Gw.PacketizedProofs Gw.TunnelOverPacketized.
 Import ListNotations.
 Local Open Scope N_scope.
 
@@ -130,14 +130,15 @@ Proof. exact ex_run_nontrivial. Qed.
 
 (* ---------------------------------------------------------------- MiniPacketTunnelIOGateway *)
 
-(* zlib (ZLibCodec::Deflate(independent=true) / Inflate) appears as the premise [inflate (deflate x) = x]. *)
+(* zlib (ZLibCodec::Deflate(independent=true) / Inflate) appears as the premise [inflate (deflate x) = x].
+   A receiver MTU below the sender's (truncated datagrams) is covered for senders that do not compress. *)
 Theorem C12_mini_sound :
   forall (deflate : N -> list Byte.byte -> option (list Byte.byte))
          (inflate : list Byte.byte -> option (list Byte.byte)),
     (forall lvl x d, deflate lvl x = Some d -> inflate d = Some x) ->
     forall (rc : rcfg) (who : addr -> option mini_run) (net : list (addr * packet)),
       rc_misc rc = false -> PHS <= rc_mtu rc ->
-      (forall a s, who a = Some s -> mr_ok s /\ mc_mtu (mr_cfg s) <= rc_mtu rc) ->
+      (forall a s, who a = Some s -> mr_ok s /\ (mc_level (mr_cfg s) = 0 \/ mc_mtu (mr_cfg s) <= rc_mtu rc)) ->
       (forall a s p, who a = Some s -> In (a, p) net -> In p (mr_packets deflate s) \/ foreign (rc_magic rc) p) ->
       forall a s m, who a = Some s -> In (a, m) (mrecv_all inflate rc net) -> In m (mr_msgs s).
 Proof. exact mini_sound. Qed.
@@ -239,3 +240,63 @@ Example C12_packetized_nontrivial :
   wops_nonempty wops /\ pw_buffered wst = false /\ rest = [] /\ pr_hdr rst = []
   /\ wrs = [WTook 3; WTook 0; WTook 1] /\ handed rrs = [[Byte.x01; Byte.x02; Byte.x03]; [Byte.x09]].
 Proof. exact packetized_nontrivial. Qed.
+
+(* ---------------------------------------------------------------- the read loop; end to end over PacketizedProxyDataIO *)
+
+(* one DoInput(maxBytes) call over a device holding several packets = the consumed prefix, packet by packet *)
+Theorem C12_recv_loop_prefix :
+  forall rc queue t maxBytes total t' out rest,
+    recv_loop rc t maxBytes total queue = (t', out, rest) ->
+    exists n, rest = skipn n queue /\ recv_all rc t (firstn n queue) = (t', out).
+Proof. exact recv_loop_prefix. Qed.
+Print Assumptions C12_recv_loop_prefix.
+
+Theorem C12_mrecv_loop_prefix :
+  forall (inflate : list Byte.byte -> option (list Byte.byte)) rc queue maxBytes total out rest,
+    mrecv_loop inflate rc maxBytes total queue = (out, rest) ->
+    exists n, rest = skipn n queue /\ mrecv_all inflate rc (firstn n queue) = out.
+Proof. exact mrecv_loop_prefix. Qed.
+Print Assumptions C12_mrecv_loop_prefix.
+
+(* the tunnel over the packetizer over a byte stream cut up arbitrarily on both sides *)
+Theorem C12_tunnel_over_packetized_complete :
+  forall rc c a id0 ops st pkts t0 mtu wops wst out wrs script rst rest rrs,
+    scfg_ok c -> compat c rc -> id0 < two32 -> no_setid ops ->
+    N.of_nat (length (added ops)) <= two32 ->
+    Forall (fun m => lenN m < two32) (added ops) ->
+    srun c (s_init id0) ops = (st, pkts) -> s_pkt st = [] ->
+    tbl_wf t0 -> tbl_find a t0 = None ->
+    mtu < two32 -> wops_nonempty wops -> Forall (fun x => mtu <= fst (fst x)) script ->
+    pwrites mtu pw_init wops = (wst, out, wrs) -> taken wops wrs = pkts -> pw_buffered wst = false ->
+    preads mtu pr_init out script = (rst, rest, rrs) -> rest = [] -> pr_hdr rst = [] ->
+    exists done,
+      added ops = done ++ s_q st
+      /\ snd (recv_all rc t0 (map (pair a) (handed rrs))) = map (pair a) (filter (fits rc) done).
+Proof. exact tunnel_over_packetized_complete. Qed.
+Print Assumptions C12_tunnel_over_packetized_complete.
+
+Theorem C12_mini_over_packetized_complete :
+  forall (deflate : N -> list Byte.byte -> option (list Byte.byte))
+         (inflate : list Byte.byte -> option (list Byte.byte)),
+    (forall lvl x d, deflate lvl x = Some d -> inflate d = Some x) ->
+    forall rc c a pid0 ops st pkts mtu wops wst out wrs script rst rest rrs,
+      mcfg_ok c -> rc_misc rc = false ->
+      mc_magic c = rc_magic rc -> sex_ok rc (mc_sex c) = true -> mc_mtu c <= rc_mtu rc ->
+      pid0 < 2 ^ 24 -> no_msetid ops ->
+      Forall (fun m => lenN m < two32) (madded ops) ->
+      mrun deflate c (m_init pid0) ops = (st, pkts) -> m_pkt st = [] ->
+      mtu < two32 -> wops_nonempty wops -> Forall (fun x => mtu <= fst (fst x)) script ->
+      pwrites mtu pw_init wops = (wst, out, wrs) -> taken wops wrs = pkts -> pw_buffered wst = false ->
+      preads mtu pr_init out script = (rst, rest, rrs) -> rest = [] -> pr_hdr rst = [] ->
+      exists done,
+        madded ops = done ++ m_q st
+        /\ mrecv_all inflate rc (map (pair a) (handed rrs)) = map (pair a) (filter (mfits c) done).
+Proof. exact mini_over_packetized_complete. Qed.
+Print Assumptions C12_mini_over_packetized_complete.
+
+Example C12_e2e_nontrivial :
+  let '(wst, out, wrs) := pwrites 30 pw_init e2e_wops in
+  let '(rst, rest, rrs) := preads 30 pr_init out e2e_script in
+  length e2e_pkts = 3%nat /\ taken e2e_wops wrs = e2e_pkts /\ pw_buffered wst = false /\ rest = [] /\ pr_hdr rst = []
+  /\ snd (recv_all e2e_rc [] (map (pair 0) (handed rrs))) = [(0, repeat Byte.x41 9); (0, [Byte.x07])].
+Proof. exact e2e_nontrivial. Qed.
